@@ -130,6 +130,36 @@ fn reach_vars<'a>(fs: &Frags<'a>, sels: &[&'a Selection<'a>], seen: &mut Vec<&'a
         }
     }
 }
+/// boolean variables of a selection set's own @skip/@include, through inline fragments and spreads (not through sub-selections)
+fn local_var_set<'a>(fs: &Frags<'a>, sels: &[&'a Selection<'a>], depth: usize, out: &mut BTreeSet<&'a str>) {
+    if depth > 64 { return; }
+    for s in sels {
+        match s {
+            Selection::Field(f) => dir_vars_of(&f.directives, out),
+            Selection::FragmentSpread(sp) => { dir_vars_of(&sp.directives, out); if let Some(fd) = frag(fs, sp.fragment_name.name) { local_var_set(fs, &fd.selection_set.selections.iter().collect::<Vec<_>>(), depth + 1, out); } }
+            Selection::InlineFragment(i) => { dir_vars_of(&i.directives, out); local_var_set(fs, &i.selection_set.selections.iter().collect::<Vec<_>>(), depth + 1, out); }
+        }
+    }
+}
+/// syntactic estimate of the number of branches the generator BUILDS for a selection set (objects x 2^variables, each branch
+/// building the trees of all its object fields again), saturating; used to leave pathological documents out before the real
+/// code is run on them
+fn est_branches<'a>(sv: &SV, fs: &Frags<'a>, t: &str, sels: &[&'a Selection<'a>], depth: usize) -> u64 {
+    const SAT: u64 = 1 << 40;
+    if depth > 24 { return SAT; }
+    let mut vars = BTreeSet::new(); local_var_set(fs, sels, 0, &mut vars);
+    let mult = 1u64 << vars.len().min(30);
+    let mut total = 0u64;
+    for o in sv.possible(t) {
+        let mut per = 1u64;
+        for (_, name, sub) in scope_fields(sv, fs, &o, sels, 0) {
+            if sub.is_empty() { continue; }
+            if let Some(named) = sv.field_named_type(&o, &name) { per = per.saturating_add(est_branches(sv, fs, &named, &sub, depth + 1)); if per >= SAT { return SAT; } }
+        }
+        total = total.saturating_add(mult.saturating_mul(per)); if total >= SAT { return SAT; }
+    }
+    total
+}
 fn has_local_vars<'a>(fs: &Frags<'a>, sels: &[&'a Selection<'a>], depth: usize) -> bool {
     if depth > 64 { return false; }
     sels.iter().any(|s| match s {
@@ -393,8 +423,55 @@ fn run_doc(out: &mut Out, si: usize, sdl: &str, tsdoc: &TypeSystemDocument, sche
     if st.get("repeated_keys_with_subselection").copied().unwrap_or(0) > 0 { *out.stats.entry("documents_with_object_merge").or_insert(0) += 1; }
     if st.get("variable_conditions").copied().unwrap_or(0) > 0 { *out.stats.entry("documents_with_variable_condition").or_insert(0) += 1; }
 
-    // (iii) the whole module, through the recording writer
+    // size pre-check: branches multiply (objects x 2^variables per nesting level); a few generated documents make the
+    // generator build trees with millions of branches (gigabytes of emitted type). Count the branches of every definition's
+    // tree first and leave such documents out before anything is printed.
     let options = OperationTypePrinterOptions::default();
+    {
+        // syntactic estimate first: do not even run the real code on documents that would build millions of branches
+        let frs: Frags = doc.definitions.iter().filter_map(|d| match d { ExecutableDefinition::FragmentDefinition(f) => Some(f), _ => None }).collect();
+        let svx = SV { doc: tsdoc };
+        let mut est = 0u64;
+        for d in &doc.definitions {
+            let (parent, sels) = match d {
+                ExecutableDefinition::OperationDefinition(o) => (root_name(tsdoc, o.operation_type), &o.selection_set),
+                ExecutableDefinition::FragmentDefinition(f) => (f.type_condition.name.to_string(), &f.selection_set),
+            };
+            est = est.max(est_branches(&svx, &frs, &parent, &sels.selections.iter().collect::<Vec<_>>(), 0));
+        }
+        if est > 300_000 {
+            out.docs.pop();
+            *out.stats.entry("documents_left_out_estimated_over_300000_branches_built").or_insert(0) += 1;
+            *out.stats.entry("documents").or_insert(1) -= 1;
+            return;
+        }
+    }
+    {
+        const BRANCH_CAP: usize = 20_000;
+        let fragment_definitions: HashMap<&str, &FragmentDefinition> = doc.definitions.iter().filter_map(|d| match d {
+            ExecutableDefinition::FragmentDefinition(f) => Some((f.name.name, f)), _ => None }).collect();
+        let ctx = QueryTypePrinterContext { options: &options, schema, fragment_definitions: &fragment_definitions };
+        let mut worst = 0usize;
+        for d in &doc.definitions {
+            let (parent, sels) = match d {
+                ExecutableDefinition::OperationDefinition(o) => (root_name(tsdoc, o.operation_type), &o.selection_set),
+                ExecutableDefinition::FragmentDefinition(f) => (f.type_condition.name.to_string(), &f.selection_set),
+            };
+            let parent_ty: Type<Cow<str>, Pos> = Type::NonNull(Box::new(graphql_type_system::NonNullType::from(Type::Named(
+                graphql_type_system::NamedType::from(graphql_type_system::Node::from(parent.as_str(), Pos::builtin()))))));
+            if let Ok(tree) = catch(AssertUnwindSafe(|| get_type_for_selection_set(&ctx, sels, &parent_ty))) {
+                let (mut nb, mut md) = (0, 0); tree_stats(&tree, &mut nb, &mut md, 1); worst = worst.max(nb);
+            }
+        }
+        let e = out.stats.entry("largest_tree_branches_of_a_definition").or_insert(0); *e = (*e).max(worst);
+        if worst > BRANCH_CAP {
+            out.docs.pop();
+            *out.stats.entry("documents_left_out_tree_over_20000_branches").or_insert(0) += 1;
+            *out.stats.entry("documents").or_insert(1) -= 1;
+            return;
+        }
+    }
+    // (iii) the whole module, through the recording writer
     let printed = catch(AssertUnwindSafe(|| { let mut w = Rec::new(); print_types_for_operation_document(options.clone(), schema, &doc, &mut w); w }));
     let (ops_term, text_out) = match &printed {
         Ok(w) => (format!("(Some (Ok {}))", wops_coq(&w.coalesced())), Some(w.text())),
@@ -536,6 +613,7 @@ fn configure_scalars(rng: &mut Rng, s: &verif_harness::gen::Schema, sdl: &str, s
 /// hand-written corpus: the witnesses of the property texts and of the refuted lemmas, run first
 fn corpus() -> Vec<(&'static str, &'static str)> {
     const S1: &str = "type Query { a: A! b: [A] u: U i: I }\ntype A implements I { x: Int y: String! id: ID! a: A }\ntype B implements I { id: ID! z: Float }\ninterface I { id: ID! }\nunion U = A | B\n";
+    const S2: &str = "type Query { user: User! named: Named }\ninterface Named { name: String bestFriend: Named tags: [String] }\ntype User implements Named { name: String! bestFriend: User! tags: [String!]! }\ntype Bot implements Named { name: String bestFriend: Named tags: [String] }\n";
     vec![
         (S1, "query Q($v: Boolean!) { a { x @skip(if: $v) } a { y @skip(if: $v) } }"),
         (S1, "query Q($v: Boolean!) { a { x } a { y @skip(if: $v) } }"),
@@ -546,6 +624,9 @@ fn corpus() -> Vec<(&'static str, &'static str)> {
         (S1, "query Q($v: Boolean!) { a { a { x @skip(if: $v) } } a { a { y @skip(if: $v) } } }"),
         (S1, "query Q { a { x @skip(if: true) x y @include(if: false) } }"),
         (S1, "query Q($v: Boolean!, $w: Boolean!) { a { x @skip(if: $v) k: y @include(if: $w) id } b { __typename x @include(if: true) } i { id } u { __typename } }"),
+        // covariant narrowing of inherited fields: the object's own (narrower) field types must be used on its branch
+        (S2, "query Q { user { name bestFriend { name } } named { name bestFriend { __typename name } ... on User { n: name bf: bestFriend { name } } } }"),
+        (S2, "query Q { user { ...N } named { ...N } }\nfragment N on Named { name bestFriend { name } }"),
     ]
 }
 
@@ -632,6 +713,7 @@ fn main() {
     let (n_schemas, n_docs) = if thorough { (300, 10) } else { (36, 5) };
     for _ in 0..n_schemas {
         let s = gen_schema(&mut rng, &SchemaCfg { descriptions: false, custom_directives: true });
+        for t in &s.types { if let Kind::Object { fields, .. } = &t.kind { for f in fields { if s.is_narrowed(&t.name, &f.name) { *out.stats.entry("schema_fields_narrowed_covariantly(object vs interface)").or_insert(0) += 1; } } } }
         let (sdl, scalar_cfg) = configure_scalars(&mut rng, &s, &s.render(), &mut out.stats);
         let tsdoc = match load_schema(&sdl) { Ok(d) => d, Err(_) => { *out.stats.entry("schemas_rejected").or_insert(0) += 1; continue; } };
         if !check_schema(&tsdoc).is_empty() { *out.stats.entry("schemas_rejected").or_insert(0) += 1; continue; }
